@@ -95,6 +95,13 @@ def judge(method, cfg, d):
                 if idx < len(ts):
                     if not (ts[idx] == cbs[k][1] and ys[idx] == 0.25):
                         out.append(("protocol", f"after ModifiedSolution at callback {k} the next evaluation is at (t={ts[idx]!r}, y={ys[idx]!r}), expected ({cbs[k][1]!r}, 0.25)"))
+    # DOPRI family: the step after an accepted step that follows a rejection is not longer than it (1% when landing)
+    if method in ("DOPRI5", "DOP853") and pattern.startswith("R") and "I" not in flags and "M" not in flags:
+        k = len(pattern) - len(pattern.lstrip("R"))
+        if pattern[k:k + 2] == "AA" and len(cbs) >= 3:
+            l1, l2 = abs(cbs[1][1] - cbs[1][0]), abs(cbs[2][1] - cbs[2][0])
+            if l2 > 1.01 * l1 * (1 + 8 * EPS):
+                out.append(("oscillation", f"after {k} rejection(s) the accepted step of length {l1!r} is followed by a longer step {l2!r}"))
     # counters
     if d["nfev"] != d["ode_calls"]:
         out.append(("counters", f"nfev={d['nfev']} but the stepper made {d['ode_calls']} right-hand-side calls"))
@@ -129,7 +136,7 @@ PATTERNS = ["A", "AA", "AAA", "AAAA", "RA", "ARA", "AARA", "RRA", "ARRA", "RAA",
 FLAGS = ["C", "CM", "CCM", "CX", "CCX", "I", "CI", "CCI", "M", "X", "CMI", "CXM"]
 
 KINDS = {
-    "times": ("times", "status", "maxstep", "hang"),
+    "times": ("times", "status", "maxstep", "hang", "oscillation"),
     "counters": ("counters",),
     "prefix": ("times", "protocol", "status"),
     "protocol": ("protocol", "status"),
@@ -137,18 +144,20 @@ KINDS = {
 }
 
 
-def hinit_probe(method, backward):
-    """Automatic initial step with a max_step far larger than the interval and a slowly varying
-    solution (|f| << |y|): does hinit evaluate the right-hand side beyond xend?"""
+def hinit_probes(method, backward):
+    """Automatic initial step: (a) max_step far larger than the interval and a slowly varying solution
+    (|f| << |y|), (b) a tiny interval with f(x0) = 0 (hinit's fixed 1e-6 guess), (c) a tiny interval with a
+    slowly varying solution: does hinit evaluate the right-hand side beyond xend?"""
     import os
-    x0, xend = (1.0, 0.0) if backward else (0.0, 1.0)
-    os.environ["SCRIPT_PRE"] = "1e-4"
-    try:
-        st, pre = STAGES[method]
-        d = replay.probe(["script", method, repr(x0), repr(xend), "none", "1e9", 100000, "A", "C", st, 2], timeout=20)
-    finally:
-        os.environ.pop("SCRIPT_PRE", None)
-    return d, (x0, xend, None, 1e9, 100000, "A", "C")
+    st, pre = STAGES[method]
+    for pre_val, span, ms in (("1e-4", 1.0, "1e9"), ("0", 1e-9, "none"), ("1e-4", 1e-9, "none"), ("1e-4", 1e-9, "1e9")):
+        x0, xend = (span, 0.0) if backward else (0.0, span)
+        os.environ["SCRIPT_PRE"] = pre_val
+        try:
+            d = replay.probe(["script", method, repr(x0), repr(xend), "none", ms, 100000, "A", "C", st, 2], timeout=20)
+        finally:
+            os.environ.pop("SCRIPT_PRE", None)
+        yield d, (x0, xend, None, None if ms == "none" else float(ms), 100000, "A", "C"), pre_val
 
 
 def confirm(method, backward, failed, kind):
@@ -159,12 +168,21 @@ def confirm(method, backward, failed, kind):
     n = 0
     if kind == "prefix" and method != "RK4":
         try:
-            d, cfg = hinit_probe(method, backward)
-            for k, desc in judge(method, cfg, d):
-                if k in want:
-                    return True, f"SCRIPT_PRE=1e-4 probe script {method} {cfg[0]} {cfg[1]} none 1e9 100000 A C  (automatic initial step, max_step >> interval)", f"native violation [{k}] {desc}"
+            for d, cfg, pre_val in hinit_probes(method, backward):
+                for k, desc in judge(method, cfg, d):
+                    if k in want:
+                        return True, f"SCRIPT_PRE={pre_val} probe script {method} {cfg[0]} {cfg[1]} none {cfg[3]} 100000 A C  (automatic initial step)", f"native violation [{k}] {desc}"
         except Exception as e:
             log.append(f"hinit probe failed: {str(e)[:100]}")
+    if kind == "counters" and method in ("DOPRI5", "DOP853") and any("evals.ode" in str(f[0]) for f in failed):
+        # the stiffness-detection exit is only reachable on a long stiff run: y' = -2000 (y - cos t) until the solver gives up
+        try:
+            d = replay.probe(["stiff", method], timeout=120)
+            if d.get("ok") and d["nfev"] != d["ode_calls"]:
+                return True, f"probe stiff {method}   (real {method} on y' = -2000 (y - cos t), [0,20], until it stops with {d['status']})", f"native violation [counters] nfev={d['nfev']} but the stepper made {d['ode_calls']} right-hand-side calls (status {d['status']})"
+            log.append(f"stiff run: nfev={d.get('nfev')} calls={d.get('ode_calls')} status={d.get('status')}")
+        except Exception as e:
+            log.append(f"stiff probe failed: {str(e)[:100]}")
     budgets = (100000,) if kind != "budget" else (1, 2, 3)
     for (x0, xend, h0, ms) in battery(method, backward):
         for pat in PATTERNS:
